@@ -21,7 +21,7 @@ func init() {
 		ID:      "C11",
 		Level:   "exploration",
 		Workers: 16,
-		Rule: "seeded push histories of 2-3 clients on each of the four types over the real service; the background snapshot update of a chosen push is held at one of its database commands (find -_-Snapshots, find -_-Operations, insert -_-Snapshots, update <user collection>) while later pushes commit and start their own updates, or all updates run freely back to back with random delays, or the whole background goroutine of one push is held back and starts only after the update of a later push has completed (out-of-order updates); monitors over the store and the command log: every -_-Snapshots document (duid, v) restored into a fresh datatype equals the replay of stored operations 1..v; every write to the user collection carries _orda_ver_ = v and (after the BSON round trip the server performs) the JSON view of replay(1..v); per key the written versions never decrease; snapshot.Manager.GetLatestDatatype() equals the full replay for every position of the latest snapshot (newer snapshot documents are removed step by step); " +
+		Rule: "seeded push histories of 2-3 clients on each of the four types over the real service; the background snapshot update of a chosen push is held at one of its database commands (find -_-Snapshots, find -_-Operations, insert -_-Snapshots, update <user collection>) while later pushes commit and start their own updates, or all updates run freely back to back with random delays, or the whole background goroutine of one push is held back and starts only after the update of a later push has completed (out-of-order updates); monitors over the store and the command log: every -_-Snapshots document (duid, v) restored into a fresh datatype equals the replay of stored operations 1..v; every write to the user collection carries _orda_ver_ = v and (after the BSON round trip the server performs) the JSON view of replay(1..v); per key the written versions never decrease (also when the document itself has a user key named _orda_ver_); snapshot.Manager.GetLatestDatatype() equals the full replay for every position of the latest snapshot (newer snapshot documents are removed step by step); " +
 			"non-trivial = at least one snapshot update overlapped a later committed push (its held command was released after a later push had committed) or >= 3 updates ran back to back; distinct = hash of the step script",
 		Assumptions: []string{
 			"MongoDB is the in-memory stand-in; keys avoid NUL, '$' and '.' (MongoDB restrictions the stand-in does not model)",
@@ -213,6 +213,14 @@ func runC11(c *core.Case) *core.Result {
 		for j := 0; j < 1+r.Intn(3); j++ {
 			w.localOp(d)
 		}
+		if typ == "doc" && c.Index%3 == 0 && p == 2 {
+			// a legal user key that happens to be the name of the version field of the stored
+			// document: the recorded version must still be the log position
+			op := crdt.Op{Kind: "put", Key: "_orda_ver_", Val: r.Intn(3)}
+			c.Step("%s/%s local %s", d.C.Alias, d.Key, op)
+			crdt.Apply(d.DT, op)
+			c.Count("documents_with_user_key_named_like_the_version_field", 1)
+		}
 		if _, sig, msg := w.sync(w.cls[i]); sig != "" {
 			return verdict(c, "", sig, msg)
 		}
@@ -379,6 +387,18 @@ func runC11(c *core.Case) *core.Result {
 			tj, _, err := replayJSON(w, typ, dd.DUID, uint64(ver))
 			if err != nil {
 				return c.Violation("replay-error", "%v", err)
+			}
+			if m, ok := tj.(map[string]interface{}); ok {
+				if _, has := m["_orda_ver_"]; has {
+					// the version field of the stored document takes precedence over a user key of that name
+					cp := map[string]interface{}{}
+					for k, v := range m {
+						if k != "_orda_ver_" {
+							cp[k] = v
+						}
+					}
+					tj = cp
+				}
 			}
 			want, err := viaBSON(tj)
 			if err != nil {
